@@ -280,7 +280,14 @@ def check_history(case):
                 rsv = structs[b"sv"]
                 for name, f in sv.fields.items():
                     want = values.get(name, f.default)
-                    have = rsv[name.encode()].default
+                    try:
+                        with sut("returned struct definitions",
+                                 (KeyError,)):
+                            have = rsv[name.encode()].default
+                    except KeyError:
+                        raise Violation("the returned struct definitions "
+                                        "lack a variable of the struct file",
+                                        dict(det, field=name))
                     require(have == want, "the returned struct definitions "
                             "do not describe the values that were sent",
                             dict(det, field=name, got=have, expected=want))
@@ -303,5 +310,7 @@ CLAUSES = [
                 "512..32764 bytes incl. the bundled one; non-trivial = a "
                 "call with options is followed by a call without",
            examples={"quick": 600, "thorough": 3000},
-           shards={"quick": 8, "thorough": 16}),
+           shards={"quick": 8, "thorough": 16},
+           # every history starts in a process that has booted nothing yet
+           isolate=True),
 ]
